@@ -105,10 +105,14 @@ LogRow == (Part = "D" /\ pc' = "done") => PrintT(<<"ROW", row', out', RowOK(row'
 \* trajs: sequence of repetition counts produced by Pulser's trajectory generator (environment).
 \* LoopKind = "reps" : for _ in range(reps)      (the code as found)
 \*          = "reps-1": for _ in range(reps - 1) (seeded defect, used as a self-test of the requirement)
+\*          = "reps+batched2": the loop as found, but the per-run results are aggregated in batches of 2 and the batch
+\*            aggregates are aggregated again (mechanism variant seen in a seeded change: a mean of batch means is the
+\*            mean of the runs only when all batches have the same size)
 RECURSIVE SumSeq(_)
 SumSeq(s) == IF s = <<>> THEN 0 ELSE Head(s) + SumSeq(Tail(s))
 TrajSets == UNION {[1..k -> 1..MaxReps] : k \in 1..MaxTraj}
-RepsOf(t) == IF LoopKind = "reps" THEN t ELSE t - 1
+RepsOf(t) == IF LoopKind = "reps-1" THEN t - 1 ELSE t
+AggBatch == IF LoopKind = "reps+batched2" THEN 2 ELSE 0     \* 0: one aggregation over all runs
 NextTrajectory == /\ pc = "loop" /\ ti <= Len(trajs) /\ ri >= RepsOf(trajs[ti])
                   /\ ti' = ti + 1 /\ ri' = 0 /\ UNCHANGED <<pc, row, out, trajs, runs, agg>>
 RunOne ==         /\ pc = "loop" /\ ti <= Len(trajs) /\ ri < RepsOf(trajs[ti])
@@ -118,8 +122,16 @@ RECURSIVE SumVals(_)
 SumVals(s) == IF s = <<>> THEN 0 ELSE Head(s).val + SumVals(Tail(s))
 RECURSIVE SumCounts(_)
 SumCounts(s) == IF s = <<>> THEN 0 ELSE Head(s).counts + SumCounts(Tail(s))
+\* the reported mean as an exact rational <<num, den>>
+RECURSIVE MeanOfBatchMeans(_, _, _)
+MeanOfBatchMeans(s, B, acc) ==      \* acc = <<sum of batch means as num, den, number of batches>>
+    IF s = <<>> THEN <<acc[1], acc[2] * acc[3]>>
+    ELSE LET k == IF Len(s) < B THEN Len(s) ELSE B
+             b == SubSeq(s, 1, k)
+         IN MeanOfBatchMeans(SubSeq(s, k + 1, Len(s)), B, <<acc[1] * k + SumVals(b) * acc[2], acc[2] * k, acc[3] + 1>>)
+ReportedMean(s) == IF AggBatch = 0 \/ s = <<>> THEN <<SumVals(s), Len(s)>> ELSE MeanOfBatchMeans(s, AggBatch, <<0, 1, 0>>)
 Aggregate ==      /\ pc = "loop" /\ ti > Len(trajs)
-                  /\ agg' = [n |-> Len(runs), meanTimesN |-> SumVals(runs), counts |-> SumCounts(runs)]
+                  /\ agg' = [n |-> Len(runs), meanTimesN |-> SumVals(runs), counts |-> SumCounts(runs), mean |-> ReportedMean(runs)]
                   /\ pc' = "returned" /\ UNCHANGED <<row, out, trajs, ti, ri, runs>>
 NTraj == SumSeq(trajs)                                   \* Pulser: the repetition counts add up to n_trajectories
 AllTrajectoriesAggregated ==
@@ -127,6 +139,7 @@ AllTrajectoriesAggregated ==
         /\ agg.n = NTraj                                  \* exactly n_trajectories simulations are combined
         /\ agg.counts = NTraj * Shots                     \* bitstring counts add up to n_trajectories * shots
         /\ agg.meanTimesN = SumVals(runs)                 \* mean = average of the per-trajectory values
+        /\ agg.mean[1] * NTraj = SumVals(runs) * agg.mean[2]   \* ... as reported (exact rational), however it was accumulated
         /\ \A k \in 1..Len(trajs) : Cardinality({i \in 1..Len(runs) : runs[i].traj = k}) = trajs[k]
 RunsNeverExceed == Part = "R" => Len(runs) <= NTraj
 
@@ -136,9 +149,9 @@ AdmittedCanRun == (Part = "V" /\ pc = "versions") => \A i \in 1..Len(Versions) :
 SomeAdmitted == (Part = "V" /\ pc = "versions") => \E i \in 1..Len(Versions) : Versions[i].admitted       \* non-vacuity
 
 \* =========================================================================================== spec
-NoR == trajs = <<>> /\ ti = 0 /\ ri = 0 /\ runs = <<>> /\ agg = [n |-> 0, meanTimesN |-> 0, counts |-> 0]
+NoR == trajs = <<>> /\ ti = 0 /\ ri = 0 /\ runs = <<>> /\ agg = [n |-> 0, meanTimesN |-> 0, counts |-> 0, mean |-> <<0, 1>>]
 Init == \/ (Part = "D" /\ row \in Rows /\ pc = "pulser" /\ out = Pending /\ NoR)
-        \/ (Part = "R" /\ trajs \in TrajSets /\ ti = 1 /\ ri = 0 /\ runs = <<>> /\ agg = [n |-> 0, meanTimesN |-> 0, counts |-> 0]
+        \/ (Part = "R" /\ trajs \in TrajSets /\ ti = 1 /\ ri = 0 /\ runs = <<>> /\ agg = [n |-> 0, meanTimesN |-> 0, counts |-> 0, mean |-> <<0, 1>>]
                        /\ pc = "loop" /\ row = [backend |-> "na"] /\ out = Pending)
         \/ (Part = "V" /\ pc = "versions" /\ row = [backend |-> "na"] /\ out = Pending /\ NoR)
 \* (pc values of the parts are disjoint, so every action is enabled in its own part only)
